@@ -97,6 +97,8 @@ def setup_template():
     import pedal.core.commands  # noqa
     import pedal.environments.standard  # noqa
     import pedal.environments.blockpy  # noqa
+    import pedal.environments.terminal  # noqa
+    import pedal.environments.gradescope  # noqa
     import pedal.command_line.modes  # noqa
     import linecache, traceback as _tb  # noqa
     from sim.monitor import MONITOR
